@@ -541,7 +541,23 @@ def r06_2(ctx, rr):
             rr.check(ok, "%s:stops-at-len" % short_fn(b.key), "%s reads the backend without `next_bit_pos != len` established" % b.key, F.loc(n), {"established": known})
 
 
-@rule("R12.1", props=["C12"], floor=150, title="unsafe-site census: every unsafe call in a safe function is discharged or rests on a tabled invariant")
+# an unchecked accessor reached without its precondition is also the behavioural property of its family that fails
+# (an out-of-order push accepted, a value stored unmasked, a rank past the end ...)
+CALLEE_FAMILY = [
+    ("EliasFanoBuilder::push_unchecked", ["C03"]), ("EliasFanoConcurrentBuilder::set", ["C03", "C13"]),
+    ("IndexedSeq::get_unchecked", ["C03"]),
+    ("SuccUnchecked::succ_unchecked", ["C04"]), ("PredUnchecked::pred_unchecked", ["C04"]),
+    ("RankUnchecked::rank_unchecked", ["C01"]), ("RankZeroUnchecked::rank_zero_unchecked", ["C01"]), ("RankHinted::rank_hinted", ["C01"]),
+    ("SelectUnchecked::select_unchecked", ["C02"]), ("SelectZeroUnchecked::select_zero_unchecked", ["C02"]),
+    ("SelectHinted::select_hinted", ["C02"]), ("SelectZeroHinted::select_zero_hinted", ["C02"]),
+    ("BitFieldSlice::get_unchecked", ["C05"]), ("BitFieldSliceMut::set_unchecked", ["C05"]),
+    ("AtomicBitFieldSlice::get_atomic_unchecked", ["C05", "C13"]), ("AtomicBitFieldSlice::set_atomic_unchecked", ["C05", "C13"]),
+    ("BitVec::get_unchecked", ["C06"]), ("BitVec::set_unchecked", ["C06"]),
+    ("AtomicBitVec::get_unchecked", ["C06", "C13"]), ("AtomicBitVec::set_unchecked", ["C06", "C13"]), ("AtomicBitVec::swap_unchecked", ["C06", "C13"]),
+]
+
+
+@rule("R12.1", props=["C12", "C01", "C02", "C03", "C04", "C05", "C06", "C13"], floor=150, title="unsafe-site census: every unsafe call in a safe function is discharged or rests on a tabled invariant")
 def r12_1(ctx, rr):
     F = ctx.F()
     S = [s for s in get_census(ctx) if not s.debug_only]
@@ -576,7 +592,8 @@ def r12_1(ctx, rr):
             s = sites[-1]
             rr.violate(key, "%s: %d unsafe call(s) `%s` whose obligation `%s` is neither established on every path nor covered by a tabled construction invariant (table allows %d); sites: %s" % (
                 k[0], len(sites), k[1], goal_show(s.goal), n_allowed, ", ".join("%s `%s`" % (x.loc, x.args_show[:80]) for x in sites)),
-                s.loc, {"required": goal_show(s.goal), "established": s.known[:12], "sites": [x.loc for x in sites]})
+                s.loc, {"required": goal_show(s.goal), "established": s.known[:12], "sites": [x.loc for x in sites]},
+                props=["C12"] + [p_ for cal, ps_ in CALLEE_FAMILY if cal == k[1] for p_ in ps_])
 
 
 @rule("R12.2", props=["C12"], floor=60, title="functions with an unchecked precondition are `unsafe fn`")
@@ -636,7 +653,9 @@ def r12_4(ctx, rr):
             return False
         exits = rejecting_exits(F, b, is_exit)
         if len(exits) < min_exits:
-            raise AnchorMissing("%s: expected at least %d rejecting exit(s) of kind %s, found %d" % (b.key, min_exits, exit_kind, len(exits)))
+            # reported at the function, so that it is attributed to the properties anchored in its file only
+            rr.violate("%s:rejecting-exit-missing" % short_fn(b.key), "reason=anchor-missing: %s: expected at least %d rejecting exit(s) of kind %s, found %d (the guard that turns out-of-domain arguments away is gone)" % (b.key, min_exits, exit_kind, len(exits)), b.span)
+            return
         for n, K, W in exits:
             rr.instances += 1
             ok = any(goal_holds(K, g) for g in reasons)
